@@ -55,6 +55,39 @@ def one_scenario(chk, idx, branch):
     parsed = vlib.run_impl("parse", [{"hex": b.hex(), "format": "info", "branch": branch} for b in blobs], chk.pid)
     batches = [[[n, gen.cov_canon(c)] for n, c in r["ok"]] if "ok" in r else None for r in parsed]
     key_batch = {pipeline.content_key(b): bt for b, bt in zip(blobs, batches)}
+    extra = []
+    # JaCoCo reports and LLVM gcno+gcda pairs go through the same queue (other item kinds, other parsers)
+    if rng.random() < 0.4:
+        import c06
+        xd = os.path.join(root, "in", "x1")
+        os.makedirs(xd, exist_ok=True)
+        xmls = [c06.make_xml(rng, 100 + j) for j in range(rng.randrange(1, 4))]
+        for j, x in enumerate(xmls):
+            open(os.path.join(xd, "r%d.xml" % j), "wb").write(x)
+        args.append(xd)
+        px = vlib.run_impl("parse", [{"hex": x.hex(), "format": "xml", "branch": branch} for x in xmls], chk.pid)
+        for x, r in zip(xmls, px):
+            bt = [[n, gen.cov_canon(c)] for n, c in r["ok"]] if "ok" in r else None
+            batches.append(bt)
+            key_batch[pipeline.content_key(x)] = bt
+    if rng.random() < 0.4:
+        gd = os.path.join(root, "in", "g1")
+        os.makedirs(gd, exist_ok=True)
+        stems = rng.sample(["file", "file_branch", "reader"], rng.randrange(1, 4))
+        gc = []
+        for st in stems:
+            gn = open(os.path.join(vlib.REPO, "test", "llvm", st + ".gcno"), "rb").read()
+            gda = open(os.path.join(vlib.REPO, "test", "llvm", st + ".gcda"), "rb").read()
+            open(os.path.join(gd, st + ".gcno"), "wb").write(gn)
+            open(os.path.join(gd, st + ".gcda"), "wb").write(gda)
+            gc.append({"gcno": gn.hex(), "gcdas": [gda.hex()], "branch": branch, "stem": st})
+        args.append(gd)
+        extra = ["--llvm"]
+        pg = vlib.run_impl("gcno", gc, chk.pid)
+        for st, r in zip(stems, pg):
+            bt = [[n, gen.cov_canon(c)] for n, c in r["ok"]] if "ok" in r else None
+            batches.append(bt)
+            key_batch["%s#gcno#0" % st] = bt
     expected = by_path(batches)
     reports = []
     # sometimes one plain-file argument is listed twice: every listed path is an input, wherever it stands
@@ -74,7 +107,7 @@ def one_scenario(chk, idx, branch):
             a = [dup, dup] + a if run_no % 2 == 0 else [dup] + a + [dup]
         log = os.path.join(root, "log_%d.txt" % run_no)
         sched = rng.randrange(1, 10**6) if run_no else None
-        rc, out, err = pipeline.run_cli(a, threads, branch, log=log, sched=sched, cwd=root)
+        rc, out, err = pipeline.run_cli(a, threads, branch, log=log, sched=sched, cwd=root, extra=extra)
         chk.count()
         hist = {"inputs": [b.decode() for b in blobs], "args": [os.path.relpath(x, root) for x in a], "threads": threads,
                 "branch": branch, "sched_seed": sched}
@@ -153,7 +186,7 @@ def run(chk):
     okn = validate_traces(chk)
     chk.cov["traces_validated_against_impl"] = okn
     chk.extra["distribution"] = {"scenarios": n, "artifact_counts": sizes, "runs": chk.cov["evaluations"]}
-    chk.cov["rule"] = ("scenarios of 1-20 unique lcov artifacts spread over directories, nested directories, a zip and plain arguments; each scenario run 3 times with "
+    chk.cov["rule"] = ("scenarios of 1-20 unique lcov artifacts (plus, in 40% of them, 1-3 JaCoCo reports and/or 1-3 LLVM gcno+gcda pairs with --llvm) spread over directories, nested directories, a zip and plain arguments, sometimes with one plain argument listed twice; each scenario run 3 times with "
                        "different --threads (1..16), shuffled argument order and a schedule-perturbation seed; every run: (a) the lcov report decoded by an independent "
                        "reader must be the C01 aggregate of the per-artifact parse results (each artifact alone through the harness), one record per file; (b) the "
                        "per-thread hook event log is scheduled into a label sequence which Coq replays through Model/Pipeline.v (vm_compute): it must be an execution "
@@ -161,7 +194,7 @@ def run(chk):
                        "non-trivial = a run whose trace was validated; distinct by (scenario, run)")
     chk.cov["trusted_base"] = ["Coq kernel; vm_compute for trace replay", "hooks H1/H2 in /repo (cfg mozilla_grcov_verif)", "the Python scheduler that orders per-thread events (its output is re-checked by Coq)",
                                "modelled, not verified: crossbeam bounded channel = linearizable FIFO with disconnect, std Mutex = mutual exclusion + poisoning, thread spawn/join, process::exit"]
-    chk.assumptions = ["atomicity of the modelled steps (channel operations, one lock scope per batch)", "only info artifacts are traced; xml/gcno items go through the same consumer loop"]
+    chk.assumptions = ["atomicity of the modelled steps (channel operations, one lock scope per batch)", "info, JaCoCo xml and LLVM gcno+gcda artifacts are traced; gcno through external gcov goes through the same loop (C20)"]
 
 
 def replay(chk, path):
